@@ -4,6 +4,10 @@ The real `_Connector` is driven on the virtual loop with fake streams whose conn
 completes in the order a schedule dictates; the two timers are fired by moving the virtual clock to their
 deadlines.  After `start()` and after every event the observable state is compared with the Lean model
 (`C10 run`) and judged by the Lean specification (`C10 spec`).
+
+The `connect` callable is the environment.  Per list entry its CALL has one of three outcomes: it returns a stream
+with a pending connect future, it returns a stream whose future has already failed, or it RAISES (what
+`TCPClient._create_stream` does when `bind()` fails) — `addrs[i][1]` is False / True / "R".
 """
 import itertools
 from core.wire import atom, line, parse_reply, Atom
@@ -27,6 +31,8 @@ TRUSTED = [
     "core/vloop.py (virtual clock; a timer fires when the clock is moved to its deadline)",
     "the fake stream: close() on a stream whose connect is pending fails the connect future (as IOStream does); "
     "a failed connect leaves the stream closed",
+    "a `connect` callable that raises has released what it created (TCPClient._create_stream: socket_obj.close() before "
+    "the re-raise); the harness records such a call as a failed, closed stream that was never handed to the connector",
 ]
 ASSUMPTIONS = [
     "the resolved address list is non-empty (`_Connector([])` raises IndexError in split(); getaddrinfo never returns [])",
@@ -35,23 +41,30 @@ ASSUMPTIONS = [
     "addresses belong to at most two families (the statement's scope); 'one attempt per family' is per queue otherwise",
     "a connect future completes at most once; completions of a closed stream are not reported by the environment",
     "nobody but the connector completes or cancels the connector's future",
+    "scope = `_Connector` (the racing state machine) driven through its `connect` callable; `TCPClient.connect`'s own "
+    "legs around it (resolver timeout, `gen.with_timeout` + `start_tls` after the connector is done) are not modelled, "
+    "generated or judged",
 ]
-RULE = ("address lists of 1-4 entries over two families with per-address synchronous-failure flags, with/without connect "
+RULE = ("address lists of 1-4 entries over two families with a per-entry outcome of the connect CALL (returns a pending "
+        "future / returns an already-failed future / RAISES), with/without connect "
         "timeout; entries may repeat a (family, address) pair (adjacent, non-adjacent, in either family; the same address "
         "text in both families is two addresses); schedules of up to 7 events: batches of 1-3 completions (success/failure "
         "of the k-th in-flight attempt), happy-eyeballs timer, connect timer; quick: random (40% with repeated addresses, "
         "a third of the schedules failure-heavy) + all schedules of length <=2 for the 15 fully asynchronous duplicate-free "
         "address lists and for the 8 lists of <=3 entries that repeat an address (the 39 such lists of 4 entries: length <=1), "
-        "plus 4 fail-every-attempt schedules per duplicate list, x connect-timeout on/off; thorough: all of these one event "
+        "plus 4 fail-every-attempt schedules per duplicate list, x connect-timeout on/off; every list of <=3 entries in "
+        "which a connect call raises: pending/raise patterns with all schedules of length <=2, mixed with failed futures "
+        "<=1, 4 entries one shorter (so the call raises inside start(), inside on_timeout and inside on_connect_done), "
+        "plus 4 fail-every-attempt schedules around both timers; thorough: all of these one event "
         "longer. "
         "non-trivial = >=2 streams opened and the future completed")
 EXHAUSTIVE = {"quick": False, "thorough": False}
 CLAUSES = {
-    "a TCP connect completes exactly once": "resolved_once + outcome_stable (at most once, never changes); that it does complete at quiescence: completes_when_idle (Spec clause 6 on every reachable state) + quiescent_inflight",
+    "a TCP connect completes exactly once": "resolved_once + outcome_stable (at most once, never changes); that it does complete at quiescence: completes_when_idle (Spec clause 6 on every reachable state) + quiescent_inflight. All run-level theorems range over mkNamedR lists, i.e. every entry's connect call may return a pending future, return a failed future or RAISE (model of the repaired try_connect; on the unrepaired code a raising call made this clause false — known_findings/C10.json, fixed)",
     "with the first connection that succeeded": "first_success_wins (Spec clause 2 for every reachable pending state and every batch without fail-then-succ of one stream) + winner_is_first_success_reachable + winner_step_reachable (no hypothesis on `delivered`: inflight_undelivered) + winner_is_first_success + winner_step + ok_only_from_success",
-    "or with an error once every address has failed or the timeout fired": "timeout_only_from_ctick + fail_only_from_failure_or_tick; split_keeps_every_entry (the attempt queues hold len(addrinfo) entries, the start value of `remaining`); error_iff_all_failed (an error other than the timeout => every ENTRY was attempted and every stream failed; from inv_reachable / remaining_accounting: remaining = queued + undelivered across both queues); 'every address has failed' => completed: all_failed_completes (Spec clause 8) + completes_when_idle; model_run_ok_goal is false as stated (model_run_ok_refuted: ill-formed batch `fail s, succ s`); model_run_ok_partial: the whole checker (clauses 1-8) accepts every model run on schedules satisfying the decidable side condition wfEvents",
+    "or with an error once every address has failed or the timeout fired": "timeout_only_from_ctick + fail_only_from_failure_or_tick; split_keeps_every_entry (the attempt queues hold len(addrinfo) entries, the start value of `remaining`); error_iff_all_failed (ONLY the direction '=>' despite the name: an error other than the timeout => every ENTRY was attempted and every stream failed; from inv_reachable / remaining_accounting: remaining = queued + undelivered across both queues); 'every address has failed' => completed: all_failed_completes (Spec clause 8) + completes_when_idle; model_run_ok_goal is false as stated (model_run_ok_refuted: ill-formed batch `fail s, succ s`); model_run_ok_partial: the whole checker (clauses 1-8) accepts every model run on schedules satisfying the decidable side condition wfEvents",
     "every other socket it opened is closed": "losers_closed (Spec clause 4 on every reachable state: winner open, every other stream closed; all closed after error/timeout) + no_new_streams_after_done",
-    "at most one attempt per address family is in flight at a time": "one_inflight_per_family (Spec clause 5 on every reachable state; one_inflight_per_family_general: any number of families)",
+    "at most one attempt per address family is in flight at a time": "one_inflight_per_family (Spec clause 5 on every reachable state; its `fam <= 1` hypothesis is unused — one_inflight_per_family_general is the same statement for any number of families)",
 }
 PARALLEL = False      # 5000 cases take ~2.5 s serially; a forked pool only adds stalls on a loaded machine
 CASE_TIMEOUT = 60
@@ -61,13 +74,28 @@ ALPHABET = [["b", [[0, True]]], ["b", [[0, False]]], ["b", [[1, True]]], ["b", [
             ["t"], ["c"]]
 
 
-def _configs(sync):
-    for n in range(1, 5):
+RAISE = "R"      # per-entry outcome of the connect CALL: False = pending future, True = already-failed future,
+                 # "R" = the callable raises (what TCPClient._create_stream does when bind() fails)
+
+
+def _configs(sync, sizes=(1, 2, 3, 4), values=(False, True, RAISE)):
+    for n in sizes:
         for fams in itertools.product([0, 1], repeat=n - 1):
             fl = [0] + list(fams)
-            syncs = itertools.product([False, True], repeat=n) if sync else [tuple([False] * n)]
+            syncs = itertools.product(values, repeat=n) if sync else [tuple([False] * n)]
             for sy in syncs:
                 yield [[f, s] for f, s in zip(fl, sy)]
+
+
+def _raise_configs(sizes, values):
+    """every list over two families (first family 0) in which at least one connect call raises"""
+    return [a for a in _configs(True, sizes, values) if any(x[1] == RAISE for x in a)]
+
+
+def _rand_sync(rng, p):
+    """the connect call fails synchronously with probability p: half by raising, half by a failed future"""
+    r = rng.random()
+    return RAISE if r < p / 2 else r < p
 
 
 def _partitions(n):
@@ -132,6 +160,26 @@ def gen_cases(rng, tier):
                 # every attempt fails, one by one: alone / after the fallback timer / then the connect timer
                 for pre, post in (([], []), ([["t"]], []), ([], [["c"]]), ([["b", [[1, False]]]], [])):
                     yield {"addrs": addrs, "ct": ct, "events": pre + [list(e) for e in FAIL_ALL] + post, "enum": True}
+        # lists in which a connect call RAISES (in start(), inside on_timeout, inside on_connect_done): every
+        # pending/raise pattern of <=3 entries to the full depth, mixed with failed futures one event shorter,
+        # 4 entries one event shorter again; plus "every attempt fails" around the fallback / connect timer
+        seen = set()
+        for cfgs, d in ((_raise_configs((1, 2, 3), (False, RAISE)), depth),
+                        (_raise_configs((1, 2, 3), (False, True, RAISE)), depth - 1),
+                        (_raise_configs((4,), (False, RAISE)), depth - 1),
+                        (_raise_configs((4,), (False, True, RAISE)), depth - 2)):
+            for addrs in cfgs:
+                key = repr(addrs)
+                if key in seen or d < 1:      # (the 400 mixed lists of 4 entries: thorough only)
+                    continue
+                seen.add(key)
+                for ct in (False, True):
+                    for L in range(0, d + 1):
+                        for ev in itertools.product(ALPHABET, repeat=L):
+                            yield {"addrs": addrs, "ct": ct, "events": [list(e) for e in ev], "enum": True}
+                    for pre, post in (([], []), ([["t"]], []), ([], [["c"]]), ([["t"]], [["c"]])):
+                        yield {"addrs": addrs, "ct": ct, "events": pre + [list(e) for e in FAIL_ALL] + post,
+                               "enum": True}
     all_cfg = list(_configs(True))
     dup_cfg = list(_dup_configs())
     for _ in range(n_rand):
@@ -141,14 +189,14 @@ def gen_cases(rng, tier):
         elif k < 0.6:
             n = rng.randint(1, 4)
             f0 = rng.randrange(2)
-            addrs = [[f0 if i == 0 else rng.randrange(2), rng.random() < 0.2] for i in range(n)]
+            addrs = [[f0 if i == 0 else rng.randrange(2), _rand_sync(rng, 0.3)] for i in range(n)]
         elif k < 0.8:     # an enumerated duplicate pattern, random synchronous failures
-            addrs = [[f, rng.random() < 0.25, nm] for f, _, nm in rng.choice(dup_cfg)]
+            addrs = [[f, _rand_sync(rng, 0.3), nm] for f, _, nm in rng.choice(dup_cfg)]
         else:             # names from a small pool: repetitions inside a family and equal names across families
             n = rng.randint(2, 4)
             f0 = rng.randrange(2)
             pool = rng.choice([1, 2, 2, 3])
-            addrs = [[f0 if i == 0 else rng.randrange(2), rng.random() < 0.2, rng.randrange(pool)] for i in range(n)]
+            addrs = [[f0 if i == 0 else rng.randrange(2), _rand_sync(rng, 0.3), rng.randrange(pool)] for i in range(n)]
         p_ok = 0.4 if rng.random() < 0.67 else 0.05      # a third of the schedules: (almost) everything fails
         yield {"addrs": addrs, "ct": rng.random() < 0.6,
                "events": [_rand_event(rng, p_ok) for _ in range(rng.randint(0, 7))]}
@@ -215,6 +263,8 @@ def run_impl(case):
                 return super().set_exception(e)
 
         calls = {}
+        raised_at = []        # in which phase a connect call raised: "start" | "b" | "t" | "c"
+        phase = ["start"]
 
         def connect(af, addr):
             # the k-th attempt at (af, addr) is served as the k-th list entry with that address; an attempt for
@@ -223,11 +273,16 @@ def run_impl(case):
             calls[(af, addr)] = k + 1
             entries = [i for i, key in enumerate(keys) if key == (af, addr)]
             pos = entries[k] if k < len(entries) else len(addrs)
-            fs = FS(pos)
+            fs = FS(pos)      # the record of this connect CALL (for a call that raises: the socket it made and closed)
             streams.append(fs)
             if pos < len(addrs) and addrs[pos][1]:
                 fs.closed = True
-                fs.fut.set_exception(IOError("fail-%d" % (len(streams) - 1)))
+                exc = IOError("fail-%d" % (len(streams) - 1))
+                fs.fut.set_exception(exc)
+                if addrs[pos][1] == RAISE:
+                    # TCPClient._create_stream: bind() failed -> socket_obj.close(); raise.  No stream is returned.
+                    raised_at.append(phase[0])
+                    raise exc
             return fs, fs.fut
 
         def fut_state(fs):
@@ -258,6 +313,7 @@ def run_impl(case):
         snaps = [snap()]
         abs_events = []
         for ev in events:
+            phase[0] = ev[0]
             if ev[0] == "b":
                 infl = [i for i, fs in enumerate(streams) if not fs.fut.done()]
                 picks = []
@@ -280,7 +336,7 @@ def run_impl(case):
                 abs_events.append([ev[0]])
             guarded(lp.drain)
             snaps.append(snap())
-        res = {"events": abs_events, "snaps": snaps, "errors": errors}
+        res = {"events": abs_events, "snaps": snaps, "errors": errors, "raised_at": raised_at}
     return res
 
 
@@ -302,7 +358,7 @@ def _has_dup(case):
 
 
 def _waddrs(case):
-    return [[a[0], atom(bool(a[1])), k[1]] for a, k in zip(case["addrs"], _keys(case))]
+    return [[a[0], atom("R") if a[1] == RAISE else atom(bool(a[1])), k[1]] for a, k in zip(case["addrs"], _keys(case))]
 
 
 def _norm(v):
@@ -376,8 +432,17 @@ def stats(case, impl):
            "outcome:" + (last[0][0][0] if last[0] else "pending")]
     if case.get("enum"):
         out.append("enum")
-    if any(a[1] for a in case["addrs"]):
+    if any(a[1] is True for a in case["addrs"]):
         out.append("has-sync-fail")
+    if any(a[1] == RAISE for a in case["addrs"]):
+        out.append("has-raising-connect")
+    for ph in sorted(set(impl.get("raised_at", []))):
+        out.append("connect-raised-in:" + {"start": "start()", "b": "on_connect_done", "t": "on_timeout",
+                                           "c": "on_connect_timeout"}[ph])
+    if impl.get("raised_at") and last[0] and last[0][0][0] in ("last", "connfailed"):
+        out.append("raise-then-all-failed-error")
+    if impl.get("raised_at") and last[0] and last[0][0][0] == "ok":
+        out.append("raise-then-other-address-wins")
     if any(x[3] >= 2 for x in last[5]):
         out.append("late-arrival-or-double-close")
     if any(len(e) > 1 and len(e[1]) >= 2 for e in impl["events"]):
@@ -408,6 +473,8 @@ def shrink(case):
         for i in range(len(a)):
             yield {**case, "addrs": a[:i] + a[i + 1:]}
     for i, x in enumerate(a):
+        if x[1] == RAISE:
+            yield {**case, "addrs": a[:i] + [[x[0], True] + x[2:]] + a[i + 1:]}
         if x[1]:
             yield {**case, "addrs": a[:i] + [[x[0], False] + x[2:]] + a[i + 1:]}
     if case["ct"]:
